@@ -425,7 +425,11 @@ static int open_common(int which, int dirfd, const char *path, int flags, mode_t
         if (flags & O_CREAT) stamp(fd);
       }
     }
-    if (w) { ev_int(&e, "fd", fd); post('m', &e, &d, fd, se); }
+    if (w) {
+      ev_int(&e, "fd", fd);
+      if (fd >= 0) { struct stat st; if (fstat(fd, &st) == 0) { ev_int(&e, "ino", st.st_ino); ev_int(&e, "size", st.st_size); } }
+      post('m', &e, &d, fd, se);
+    }
     errno = se;
   }
   return fd;
